@@ -13,8 +13,9 @@ READY = True
 RULE = ("cases drawn from one PRNG (VERIF_SEED): one async node of a random source shape (0: fetcher reads two signals; 1: two "
         "memos; 2: memo m3 then memo m2 with m3 depending on m2; 3: resource-like, a hand-tracked memo over (refetch counter, "
         "source) with or without an initial value; 4: leptos_server ArcResource::new / Resource::new; 5: leptos_server "
-        "ArcOnceResource::new / OnceResource::new), as ArcAsyncDerived, arena AsyncDerived or new_unsync with a tracked refetch "
-        "counter (what LocalResource::new builds), with no dependent / an Effect "
+        "ArcOnceResource::new / OnceResource::new), as ArcAsyncDerived, arena AsyncDerived, new_unsync with a tracked refetch "
+        "counter (what LocalResource::new builds) or the real leptos_server ArcLocalResource::new / LocalResource::new (shape 0), "
+        "with no dependent / an Effect "
         "reading it / an Effect reading it and a memo; followed by a history of signal writes (values 0..5 so that memo values "
         "sometimes stay and sometimes change), refetches, manual set(Some v), notify (only after a manual set), completion of "
         "any created fetch future in any order, polls of the node's task and of the dependent's task in any order, "
@@ -35,8 +36,12 @@ TRUSTED = [
     "pulled, subscribers other than the current observer marked when the value changes (that is C01/C09's subject); "
     "channel.rs flag + AtomicWaker; async_lock::RwLock (uncontended in atomic polls); Effect's task loop for the dependent",
     "leptos_server: ArcResource / Resource and ArcOnceResource / OnceResource are driven through their real constructors, "
-    "refetch(), IntoFuture, ready() and reads; LocalResource only through what its constructor builds (new_unsync + tracked "
-    "refetch counter; its fetcher first awaits Executor::tick(), not exercised); serialization / hydration is out of scope",
+    "refetch(), IntoFuture, ready() and reads; ArcLocalResource / LocalResource through their real constructors, refetch(), "
+    "IntoFuture (also under an owner providing a LocalResourceNotifier: it must fire iff the resource was awaited there) and "
+    "reads, the loading flag being observed through a throw-away await; the Executor::tick() task every load of a local "
+    "resource first awaits is run by the harness at once and the node's task polled again, so a load starts within one "
+    "history poll as for every other node (schedules that interleave other events between a load's first poll and its "
+    "tick are not explored); serialization / hydration is out of scope",
 ]
 ASSUMPTIONS = [
     "single-threaded executor, atomic polls (the cross-thread windows belong to C19)",
@@ -75,7 +80,7 @@ def inputs(shape, sig):
 def gen_case(rng):
     shape = rng.choice([0, 0, 1, 1, 2, 2, 3, 4, 4, 5, 5])
     if shape == 0:
-        wrap = rng.choice([0, 1, 2])
+        wrap = rng.choice([0, 1, 2, 3, 3, 4, 4])
     elif shape in (1, 2, 4, 5):
         wrap = rng.randint(0, 1)
     else:
@@ -96,7 +101,7 @@ def gen_case(rng):
         elif r < 0.28:
             evs.append([1])
             nf += 1
-        elif r < 0.33 and shape != 5:
+        elif r < 0.33 and shape != 5 and wrap < 3:
             evs.append([2, rng.randint(7000, 7006)])
             manual = True
         elif r < 0.36 and manual:
@@ -245,11 +250,11 @@ def valid_case(item):
         if len(case) not in (5, 6):
             return False
         shape, wrap, dep, initial, evs = case[:5]
-        if shape not in (0, 1, 2, 3, 4, 5) or wrap not in (0, 1, 2) or dep not in (0, 1, 2):
+        if shape not in (0, 1, 2, 3, 4, 5) or wrap not in (0, 1, 2, 3, 4) or dep not in (0, 1, 2):
             return False
         if shape == 3 and wrap != 0:
             return False
-        if wrap == 2 and shape != 0:
+        if wrap >= 2 and shape != 0:
             return False
         if not isinstance(initial, list) or len(initial) > 1 or (initial and (shape != 3 or initial[0] != 0)):
             return False
@@ -266,7 +271,7 @@ def valid_case(item):
                 return False
             if e[0] == 0 and (e[1] > 2 or e[2] > 5):
                 return False
-            if e[0] in (2, 3) and shape == 5:
+            if e[0] in (2, 3) and (shape == 5 or wrap >= 3):
                 return False
             if e[0] == 7 and e[1] > 1:
                 return False
@@ -295,7 +300,7 @@ SH = {0: "reads signals s0,s1", 1: "reads memos s0/2, s1", 2: "reads m3 then m2 
 def describe(it):
     case = it["case"]
     shape, wrap, dep, initial, evs = case[:5]
-    head = "%s node, %s, dependent=%s, initial=%r" % (["Arc", "arena", "unsync+refetch (LocalResource-like)"][wrap], SH[shape], dep, initial)
+    head = "%s node, %s, dependent=%s, initial=%r" % (["Arc", "arena", "unsync+refetch (LocalResource-like)", "leptos_server ArcLocalResource", "leptos_server LocalResource"][wrap], SH[shape], dep, initial)
     if len(case) > 5 and case[5]:
         head += " [pre-fix model variant %d]" % case[5]
     return head + ": " + "; ".join("%s%s" % (EV.get(e[0], "?"), tuple(e[1:]) if len(e) > 1 else "") for e in evs)
